@@ -361,3 +361,25 @@ Theorem C12_comp_iso_meaning :
    exists m, common_induced nm em (induced_sub g1 c1) (induced_sub g2 c2) m /\ Permutation (map fst m) c1).
 Proof. exact comp_iso_spec. Qed.
 Print Assumptions C12_comp_iso_meaning.
+
+(** ** 15. prune_automorphisms=True, the returned mappings themselves (round 4).  VF2's choice -- for every host node set the
+    mapping it enumerates first -- is an explicit PARAMETER [choices] of the model ([apply_choices], [run_matcher_auto_with];
+    the harness obtains it from networkx alone).  For EVERY accepted parameter: the kept mappings are mappings of the unpruned
+    result chosen from the parameter, valid for the oriented pair of (pruned) graphs, pairwise different in their host node
+    sets, sorted; and in maximum mode they all have size last_size and every maximum common induced mapping has its host
+    node set represented. *)
+Theorem C12_prune_auto_choices :
+  forall (defs : list N) (prune : bool) (wc : N) (g1 g2 : graph) (mcs : bool) (choices kept : list mapping),
+  NoDup (node_ids g1) -> NoDup (node_ids g2) ->
+  let r := find_common_subgraph defs prune wc g1 g2 mcs in
+  let ga := if r_pattern_is_g1 r then prune_graph prune wc g1 else prune_graph prune wc g2 in
+  let gb := if r_pattern_is_g1 r then prune_graph prune wc g2 else prune_graph prune wc g1 in
+  apply_choices (r_maps r) choices = Some kept ->
+  (forall k, In k kept -> common_induced (node_match defs) edge_match ga gb k /\ In k (r_maps r) /\
+                          exists c, In c choices /\ k = sort_items c) /\
+  NoDup (map host_set kept) /\ Sorted (fun a b : mapping => result_ltb b a = false) kept /\
+  (mcs = true -> (forall k, In k kept -> length k = r_last r) /\
+     forall m, common_induced (node_match defs) edge_match ga gb m -> length m = r_last r -> 1 <= r_last r ->
+               exists k, In k kept /\ host_set k = host_set m).
+Proof. exact prune_auto_choices_valid. Qed.
+Print Assumptions C12_prune_auto_choices.
